@@ -1,6 +1,7 @@
 package vc
 
 import (
+	"strings"
 	"fmt"
 	"go/token"
 	"go/types"
@@ -208,7 +209,7 @@ func (e *Exec) startCut(st *State, fr *Frame, h, prev *ssa.BasicBlock) {
 	for k, ph := range phis {
 		entry[k] = e.val(st, fr, ph.Edges[pi])
 	}
-	user := e.W.loopClauses(fr.Fn, ord)
+	user := e.usableClauses(st, fr, e.W.loopClauses(fr.Fn, ord), phis, entry)
 	desc := fmt.Sprintf("%s loop %d", fnShort(fr.Fn), ord)
 
 	// 1. user invariants must hold on entry
@@ -976,4 +977,38 @@ func (e *Exec) quickValidEach(sts []*State, goals []*Term) []bool {
 	wg.Wait()
 	e.houdiniQueries += len(goals)
 	return res
+}
+
+// usableClauses drops the user clauses of a loop that mention a variable the loop no longer has (a local renamed or
+// removed by a refactoring): the proof then rests on the synthesised invariants alone, and what they cannot carry
+// fails as a named obligation further on instead of losing the whole function.
+func (e *Exec) usableClauses(st *State, fr *Frame, user []*LoopClause, phis []*ssa.Phi, entry []Val) []*LoopClause {
+	var out []*LoopClause
+	for _, u := range user {
+		ok := func() (ok bool) {
+			defer func() {
+				if r := recover(); r != nil {
+					if b, isBail := r.(Bail); isBail && strings.Contains(b.Reason, "unknown identifier") {
+						e.Notes = append(e.Notes, fmt.Sprintf("loop clause dropped (%s): %s", b.Reason, u.Text))
+						ok = false
+						return
+					}
+					panic(r)
+				}
+			}()
+			s2 := st.clone()
+			s2.Record = &WriteRec{Objs: map[int]bool{}}
+			switch u.Kind {
+			case "invariant":
+				e.evalLoopClause(s2, fr, u, phis, entry)
+			case "decreases":
+				e.evalLoopMeasure(s2, fr, u, phis, entry)
+			}
+			return true
+		}()
+		if ok {
+			out = append(out, u)
+		}
+	}
+	return out
 }
